@@ -58,7 +58,12 @@ impl FixPatch {
     }
 
     /// Generate a tuple of this fix for deduping.
-    pub fn dedupe_tuple(&self) -> Range<usize> {
-        self.source_slice.clone()
+    ///
+    /// Two patches are duplicates only when they replace the same source
+    /// slice with the same text: distinct insertions at one source position
+    /// (e.g. one before a node and one at the start of that node) must both
+    /// be kept.
+    pub fn dedupe_tuple(&self) -> (Range<usize>, SmolStr) {
+        (self.source_slice.clone(), self.fixed_raw.clone())
     }
 }
